@@ -16,7 +16,7 @@ RULE = ("convolve: every (nx, nw) pair of the box (quick 1..120 + all pairs padd
         "distinct = distinct (nx,nw,mode) or (function,length,axis)")
 ASSUMPTIONS = ["numpy.convolve / numpy.fft are the textbook definitions", "float64 tolerance 1e-9 relative to the operands' magnitudes"]
 REQUIRED = {"contract:convolve_post": 1000, "fexpand_checked": 100, "fscale_checked": 100, "nsoptim_checked": 1000,
-            "lphp_checked": 50, "integer_sample_arrays": 20, "filter_history_calls": 200, "dft_checked": 50, "cosine_checked": 20}
+            "lphp_checked": 50, "integer_sample_arrays": 20, "filter_history_calls": 200, "cosine_arrangements": 100, "dft_checked": 50, "cosine_checked": 20}
 CASE_TIMEOUT = 300.0
 
 _VIOL = []
@@ -391,6 +391,17 @@ def run_case(case):
                 ok2 = np.allclose(y[inner], (1 - np.cos((x[inner] - b0) / (b1 - b0) * np.pi)) / 2, atol=1e-12)
                 res.check(ok, "fcn_cosine:monotone", f"fcn_cosine([{b0},{b1}]) not monotone 0..1", counter="cosine_checked")
                 res.check(ok2, "fcn_cosine:shape", f"fcn_cosine([{b0},{b1}]) is not the raised cosine between its bounds")
+                # the threshold is a function of the VALUE: the same values handed over in another arrangement (descending, shuffled, the two-sided
+                # |frequency| scale of an FFT, a 2-D array) give the same answers
+                perm = rng.permutation(x.size)
+                for name, arr in (("descending", x[::-1].copy()), ("shuffled", x[perm].copy()), ("two-sided", np.r_[x, x[-2:0:-1]]), ("2-D", x[perm][: (x.size // 4) * 4].reshape(4, -1).copy()),
+                                  ("integer-typed", np.arange(int(np.floor(b0)) - 5, int(np.ceil(b1)) + 6))):
+                    ya = fcn_cosine([b0, b1])(arr.copy())
+                    af = np.asarray(arr, float)
+                    refa = np.where(af <= b0, 0.0, np.where(af >= b1, 1.0, (1 - np.cos((af - b0) / (b1 - b0) * np.pi)) / 2))
+                    res.check(np.shape(ya) == np.shape(arr) and np.allclose(ya, refa, atol=1e-12), "fcn_cosine:arrangement",
+                              f"fcn_cosine([{b0},{b1}]) on the same kind of values arranged {name}: differs from the raised-cosine threshold by "
+                              f"{np.max(np.abs(ya - refa)) if np.shape(ya) == np.shape(arr) else 'shape'}", counter="cosine_arrangements")
             except Exception as e:
                 res.exception("fcn_cosine:exception", e, f"bounds {b0},{b1}")
             nt += 1
